@@ -39,7 +39,7 @@ impl Monitor for Mon {
         let before = self.unfinished_before;
         self.unfinished_before = w.awaiting().len();
         let Some((rep, hist)) = rep else { return };
-        let replay = || json!({"kind": "history", "config": w.cfg.show(), "events": explore::show_history(hist), "observed": super::world::show_events(&st.obs.events)});
+        let replay = || explore::history_replay(w, hist, st.obs);
         let limit = w.cfg.max_tx;
         match (&st.ev, &st.obs.res) {
             (_, CallRes::Panic(p)) => rep.violate(format!("client-panics/{}", crate::util::panic_site(p)), p.clone(), replay()),
